@@ -32,6 +32,7 @@ ScnOf(j, D) == [hosts |-> j.hosts, conts |-> j.conts, inst |-> j.inst, paths |->
                 data |-> j.data, kidx |-> SetOf(j.kidx), allpaths |-> j.allpaths, defects |-> D,
                 ext |-> [srv |-> j.ext.srv, plc |-> j.ext.plc, sch |-> j.ext.sch,
                          sproot |-> j.ext.sproot, iorder |-> j.ext.iorder,
+                         fin |-> j.ext.fin, plcp |-> j.ext.plcp,
                          sp |-> [h \in DOMAIN j.ext.sp |-> j.ext.sp[h]]]]
 
 CanonPost(S, j) ==
@@ -42,6 +43,11 @@ CanonPost(S, j) ==
    sess   |-> [h \in HostSet(S) |-> j.sess[h]],
    next   |-> [h \in HostSet(S) |-> j.next[h]],
    anext  |-> j.anext,
+   sch    |-> [a \in DOMAIN S.paths |-> j.sch[a]],
+   plc    |-> [a \in DOMAIN S.paths |-> SetOf(j.plc[a])],
+   proot  |-> j.proot,
+   fin    |-> [a \in DOMAIN S.paths |-> j.fin[a]],
+   pnext  |-> j.pnext,
    linger |-> SetOf(j.linger)]
 
 (* the ZooKeeper call the request in flight on h is about to make (the thread *)
@@ -52,6 +58,8 @@ NextOf(S, s, h) ==
 Proj(S, s) == [nodes |-> s.nodes, reg |-> s.reg, queue |-> s.queue, active |-> s.active,
                sess |-> s.sess, next |-> [h \in HostSet(S) |-> NextOf(S, s, h)],
                anext |-> IF InACall(s) THEN <<ACallDesc(S, s).op, ACallDesc(S, s).path>> ELSE <<>>,
+               sch |-> s.sch, plc |-> s.plc, proot |-> s.proot, fin |-> s.fin,
+               pnext |-> IF InPCall(s) THEN <<PCallDesc(S, s).op, PCallDesc(S, s).kind>> ELSE <<>>,
                linger |-> s.linger]
 
 FiredOf(line) == IF "fired" \in DOMAIN line THEN line.fired ELSE <<>>
@@ -65,10 +73,14 @@ FiredHostsOk(pre, line) ==
      /\ pre.where[FiredOf(line)[k][2]] = FiredOf(line)[k][1]
 
 (* the host of the line (reap and helper lines have none: any host will do) *)
-HostOf(S, line) == IF "h" \in DOMAIN line /\ line.ev # "abegin" THEN line.h ELSE S.hosts[1]
+HostOf(S, line) ==
+  IF "h" \in DOMAIN line /\ line.ev \notin {"abegin", "place", "withdraw", "pbegin"}
+  THEN line.h ELSE S.hosts[1]
 
 (* lines of a helper run (extension) *)
 AEvents == {"abegin", "acall", "aend"}
+(* lines of the scheduler's placement and of a publication (trace/app/zk.py) *)
+UEvents == {"place", "withdraw", "rmroot", "pbegin", "pcall", "pend"}
 
 (* the model's step for this line: [ok, st] *)
 Exp(S, pre, line) ==
@@ -121,6 +133,28 @@ Exp(S, pre, line) ==
          THEN [ok |-> TRUE, st |-> ACallDo(S, pre, FiredConts(line))] ELSE bad
     [] line.ev = "aend" ->
          IF CanAEnd(pre) /\ line.res = "ok" THEN [ok |-> TRUE, st |-> AEndDo(pre)] ELSE bad
+    [] line.ev = "place" ->
+         IF line.a \in DOMAIN S.paths /\ line.h \in HostSet(S) /\ line.h \notin pre.plc[line.a]
+         THEN [ok |-> TRUE, st |-> PlaceDo(S, pre, line.a, line.h)] ELSE bad
+    [] line.ev = "withdraw" ->
+         IF line.a \in DOMAIN S.paths /\ line.h \in HostSet(S) /\ line.h \in pre.plc[line.a]
+         THEN [ok |-> TRUE, st |-> WithdrawDo(S, pre, line.a, line.h)] ELSE bad
+    [] line.ev = "rmroot" ->
+         IF pre.proot THEN [ok |-> TRUE, st |-> RmRootDo(S, pre)] ELSE bad
+    [] line.ev = "pbegin" ->
+         IF pre.pub.ph = "idle" /\ line.h \in HostSet(S) /\ line.a \in DOMAIN S.paths
+            /\ line.ty \in EventTypes
+         THEN [ok |-> TRUE, st |-> PubBeginDo(S, pre, line.h, line.a, line.ty)] ELSE bad
+    [] line.ev = "pcall" ->
+         IF /\ InPCall(pre)
+            /\ pre.pub.h = line.rh /\ pre.pub.a = line.ra /\ line.s = PubSess(S, line.rh)
+            /\ LET d == PCallDesc(S, pre) IN
+                 /\ d.op = line.op /\ d.kind = line.pk /\ d.res = line.res
+                 /\ (d.kind = "trace" \/ d.path = line.path)
+                 /\ (d.op = "exists" => d.found = line.found)
+         THEN [ok |-> TRUE, st |-> PCallDo(S, pre)] ELSE bad
+    [] line.ev = "pend" ->
+         IF CanPEnd(pre) /\ line.res = "ok" THEN [ok |-> TRUE, st |-> PEndDo(pre)] ELSE bad
     [] line.ev = "restart" ->
          IF CanRestart(S, pre, h, line.rord) /\ line.s = pre.nsess
          THEN [ok |-> TRUE, st |-> RestartDo(S, pre, h, line.rord)] ELSE bad
@@ -164,8 +198,15 @@ Resync(S, pre, line, post) ==
                  [q \in DOMAIN kept \cup won |-> IF q \in won THEN line.c ELSE kept[q]]],
               !.watches = {w \in pre.watches : /\ w.p \in DOMAIN post.nodes
                                                /\ ~(line.ev \in {"expire", "crash"} /\ w.h = h)},
-              !.pc[h] = IF line.ev \in AEvents THEN pre.pc[h] ELSE pc,
-              !.fs[h] = IF line.ev \in AEvents THEN pre.fs[h] ELSE fs,
+              !.pc[h] = IF line.ev \in AEvents \cup UEvents THEN pre.pc[h] ELSE pc,
+              !.fs[h] = IF line.ev \in AEvents \cup UEvents THEN pre.fs[h] ELSE fs,
+              !.sch = post.sch, !.plc = post.plc, !.proot = post.proot, !.fin = post.fin,
+              !.pub = IF line.ev = "pend" THEN NoPub
+                      ELSE IF line.ev = "pbegin"
+                      THEN [NoPub EXCEPT !.ph = "lost", !.h = line.h, !.a = line.a, !.ty = line.ty]
+                      ELSE IF line.ev = "pcall"
+                      THEN [pre.pub EXCEPT !.ph = "lost", !.h = line.rh, !.a = line.ra, !.todo = <<>>]
+                      ELSE pre.pub,
               !.adm = IF line.ev = "aend" THEN NoAdm
                       ELSE IF line.ev = "abegin"
                       THEN [NoAdm EXCEPT !.ph = "lost", !.kind = line.kind, !.h = line.h, !.clean = FALSE]
@@ -300,6 +341,36 @@ HelperVerdict(S, pre, line, post, explained) ==
           ex |-> E("ext", TRUE) \cup E("ext.atomic", pre.adm.ph = "run" /\ pre.adm.clean)]
     [] OTHER -> [fail |-> step, ex |-> E("ext", TRUE)]
 
+(* C17.unscheduleOwner, from the store's write log: a publication by host rh   *)
+(* deletes (or rewrites) a /scheduled/<app> node only if it is the instance    *)
+(* the event is about and the publication's OWN exists() of /placement/<rh>/   *)
+(* <app> returned the node (st.pub.saw, kept from the logged `found`).  If it  *)
+(* did and the placement is gone from the table at the instant of the delete,  *)
+(* the scheduler moved the instance inside the exists / delete window          *)
+(* (ext.unschedule.window, an observation).                                    *)
+SchedPaths(S) == {S.ext.sch[a] : a \in DOMAIN S.paths}
+SawAfter(S, pre, line) ==
+  IF line.op = "exists" /\ line.rh \in HostSet(S) /\ line.ra \in DOMAIN S.paths
+     /\ line.path = S.ext.plcp[line.rh][line.ra]
+  THEN line.found ELSE pre.pub.saw
+
+PubVerdict(S, pre, line, post, explained) ==
+  LET lost == pre.pub.ph = "lost"
+      step == F("ext.unschedule.step", explained \/ (lost /\ line.ev \in {"pcall", "pend"})) IN
+  IF line.ev # "pcall" THEN [fail |-> step, ex |-> E("unsched", TRUE)]
+  ELSE
+    LET hits == {w \in Applied(line) : w.op \in {"set", "delete"} /\ w.path \in SchedPaths(S)}
+        mine(w) == line.ra \in DOMAIN S.paths /\ w.path = S.ext.sch[line.ra]
+        here == line.rh \in HostSet(S) /\ line.ra \in DOMAIN S.paths
+                /\ PlcNode(pre, line.rh, line.ra) IN
+    [fail |-> step
+        \cup F("C17.unscheduleOwner", \A w \in hits : mine(w) /\ pre.pub.saw)
+        \cup F("ext.unschedule.window", \A w \in hits : mine(w) /\ pre.pub.saw => here),
+     ex |-> E("unsched", TRUE)
+        \cup E("C17", line.op = "exists" /\ line.pk = "placement")
+        \cup E("unsched.stale", line.op = "exists" /\ line.pk = "placement" /\ ~line.found)
+        \cup E("unsched.deleted", hits # {})]
+
 (* a trace with helper runs lies outside the statement of C17: from the first *)
 (* helper line on, the C17 clauses are reported as extension clauses          *)
 ExtName(f) ==
@@ -334,6 +405,7 @@ Verdict0(S, pre, line, post, explained) ==
 
 Verdict(S, pre, line, post, explained) ==
   IF line.ev \in AEvents THEN HelperVerdict(S, pre, line, post, explained)
+  ELSE IF line.ev \in UEvents THEN PubVerdict(S, pre, line, post, explained)
   ELSE LET v == Verdict0(S, pre, line, post, explained) IN
        IF pre.nkill = 0 THEN v
        ELSE [fail |-> {ExtName(f) : f \in v.fail},
@@ -358,6 +430,7 @@ TNext ==
          v == Verdict(S1, st, line, post, ok1 \/ ok2)
          nxt == IF ok1 THEN e1.st ELSE IF ok2 THEN e2.st ELSE Resync(S1, st, line, post) IN
      /\ st' = IF line.ev = "acall" THEN [nxt EXCEPT !.adm.seen = SeenAfter(S1, st, line)]
+              ELSE IF line.ev = "pcall" THEN Dirty([nxt EXCEPT !.pub.saw = SawAfter(S1, st, line)])
               ELSE IF line.ev \in AEvents THEN nxt ELSE Dirty(nxt)
      /\ PrintT(ToJson([tid |-> Traces[t].tid, i |-> i, fail |-> v.fail, ex |-> v.ex]))
 
